@@ -1,5 +1,5 @@
 # Table consumed by mkmanifest.py
-HOOK_COMMITS = []
+HOOK_COMMITS = ["0900a80"]
 ENGINES = [
     {"name": "sim", "path": "/verif/sim", "serves_properties": ["C01","C02","C03","C04","C05","C06","C07","C10","C11","C12","C15","C16","C17","C18","C19","C20"],
      "kind_free_text": "single Go test binary (go1.26.8): seeded choice tape, batch driver, shrinker, replay files, evidence writer; one workload+oracle per property under sim/checks; stub parties under sim/world"},
@@ -51,3 +51,19 @@ chk("C12", "exploration",
 chk("C15", "fault_enumeration",
     "The complete finite grid of device behaviours (report ioctl x quote ioctl x status x OutLen x buffer content x report data) and all provider behaviours against a reference model of the two-step protocol.",
     TB, "deterministic simulation of a scripted faulty guest device / quote provider; full fault-grid enumeration", "DESIGN.md §4 C15", "sim")
+
+chk("C10", "exploration",
+    "Every public entry point driven from the seams while they misbehave: every truncation length, every boundary value of each size/type field (and pairs), every single structural mutation of the message found by protobuf reflection, arbitrary endpoint responses and correctly signed but structurally odd documents, arbitrary DER in CA-signed SGX extensions, odd chains, truncated/mutated event logs. Oracle: no panic, returns within a watchdog.",
+    TB + " Coverage-guided fuzzing named in the quantifier is outside this technique.", "deterministic simulation with fault injection on device, wire, PCS, CA and firmware-log seams; crash/hang monitor", "DESIGN.md §4 C10", "sim")
+chk("C16", "exploration",
+    "The code under test is an AST-instrumented scratch copy of /repo (yield before every statement); 2-3 tasks share one quote, the raw buffer and option byte strings; the seeded scheduler preempts at tape-chosen yield points (PCT style, d<=3) and at Getter parks; at every context switch all bytes reachable from the shared values up to capacity, and the message's scalars and slice headers, must be unchanged, and verdicts must equal the solo verdicts. Single calls are snapshot-checked too and the writing statement is pinpointed.",
+    TB + " Yield points are at statement granularity. The race detector is not the oracle (baton passing would hide races).", "deterministic simulation: seeded cooperative scheduler over AST-inserted yield points, no-write invariant at every context switch", "DESIGN.md §4 C16", "sim")
+chk("C17", "exploration",
+    "Histories of extend requests over the full alphabet against a model TSM on the configfsi.Client seam (records every operation, implements register extension), with and without an injected I/O error at the k-th client call; invalid requests must cause zero writes, valid ones exactly one extend of exactly the digest on the right entry, registers must equal the model's extend chain.",
+    TB, "deterministic simulation of a model configfs-tsm with I/O fault injection; request histories against a reference model", "DESIGN.md §4 C17", "sim")
+chk("C18", "fault_enumeration",
+    "The sample CCEL replayed against quotes of a simulated platform that reports the sample RTMRs under a generated PKI: honest controls, each verification-gate and policy-gate fault, EVERY single-bit change of each RTMR in validly re-signed quotes, digest flips inside the log.",
+    TB + " The firmware log content is fixed (repository sample).", "deterministic simulation: platform/CA stubs re-sign quotes with altered RTMRs; gate-fault and bit-flip enumeration", "DESIGN.md §4 C18", "sim")
+chk("C19", "exploration",
+    "The built tools/check binary, one process per run, against a simulated disk (config, quote, bundles), flags, and a simulated or unreachable network; the exit status must lie in the set the tool contract gives for the injected causes and stderr must show no Go panic.",
+    TB + " Worlds are generated around the real wall clock (the tool has no time seam).", "deterministic simulation at process level: seeded disk/flag/network states for the real binary, reference model of the exit-code contract", "DESIGN.md §4 C19", "sim")
